@@ -408,8 +408,21 @@ class Program:
         for f in self.fns.values():
             if f.d.get("parentfn"):
                 kids.setdefault(f.d["parentfn"], []).append(f)
+        # fallback when only the spelling of a parameter TYPE changed (an alias): a function name that has exactly one definition
+        # with that many parameters, on both trees, is matched by position
+        by_name = {}
+        for k_, v_ in table.items():
+            by_name.setdefault((k_.split("(", 1)[0], len(v_)), []).append(v_)
+        cur = {}
+        for f in self.fns.values():
+            if not f.d.get("parentfn") and f.kind != "lambda":
+                cur.setdefault((plain(f.d["qname"]), len(f.d["params"])), set()).add(self.param_key(f))
         for f in list(self.fns.values()):
             ref = table.get(self.param_key(f))
+            if not ref and not f.d.get("parentfn") and f.kind != "lambda":
+                nk = (plain(f.d["qname"]), len(f.d["params"]))
+                if len(by_name.get(nk, [])) == 1 and len(cur.get(nk, ())) == 1:
+                    ref = by_name[nk][0]
             if not ref or len(ref) != len(f.params) or f.d.get("parentfn"):
                 continue
             ren = {p["decl"]: (p["name"], r) for p, r in zip(f.params, ref) if p.get("name") and r and p["name"] != r and p.get("decl")}
